@@ -223,10 +223,14 @@ func SelfTest(t *testing.T, registry []Entry) {
 		for i := 0; i < max(1, e.NValid); i++ {
 			v := e.Valid(i)
 			if e.ExactLen > 0 && len(v) != e.ExactLen {
-				t.Errorf("SELFTEST-FAIL %s: valid encoding has %d bytes, ExactLen %d", e.Name, len(v), e.ExactLen)
+				// outside C10 (no panic involved): the circl encoder behind Valid returned an unexpected length
+				t.Errorf("SELFTEST-FAIL %s: circl misbehaved outside C10: the encoder behind the registry's valid encoding #%d returned %d bytes, the documented fixed length is %d", e.Name, i, len(v), e.ExactLen)
 			}
 			if p, st := vlib.Catch(func() { e.Call(v) }); p != nil {
-				t.Errorf("SELFTEST-FAIL %s panics on its own valid encoding: %v\n%s", e.Name, p, st)
+				// a panic on bytes an untrusted party may send is the C10 violation itself, valid encoding or not
+				key := "C10/panic/" + e.Name + "/valid-encoding/" + vlib.PanicClass(p)
+				vlib.ReportDirect(t, key, fmt.Sprintf("entry=%s input(valid encoding #%d, %d bytes)=%s panic=%v\n%s", e.Name, i, len(v), vlib.Hex(v), p, trimStack(st)),
+					map[string]interface{}{"entry": e.Name, "input": fmt.Sprintf("%x", v)})
 			}
 		}
 	}
